@@ -12,7 +12,7 @@ def parse(case):
     sec = case.split("|")
     head = sec[0].split()
     pl, ld = int(head[1]), int(head[2])
-    files = [tuple(int(x) for x in t.split(",")) for t in sec[1].split()]
+    files = [tuple(int(x) for x in t.split(",")[:3]) + (t.endswith(",p"),) for t in sec[1].split()]
     rs = dict(t.split("=", 1) for t in sec[2].split())
     bad = [int(t) for t in sec[3].split() if t != "-"]
     return pl, ld, files, rs, bad
@@ -20,7 +20,8 @@ def parse(case):
 
 def file_ranges(pl, files):
     out, off = [], 0
-    for (l, sz, mt) in files:
+    for fl_ in files:
+        l = fl_[0]
         first = off // pl
         last = first if l == 0 else (off + l + pl - 1) // pl
         out.append((first, last))
@@ -39,6 +40,7 @@ def genuine(case):
         return False
     total = sum(f[0] for f in files)
     np_ = (total + pl - 1) // pl
+    files = [f for f in files]
     unc = []
     if rs.get("unc", "none") not in ("none",) and rs.get("ts", "none") not in ("none", "str") and int(rs["ts"]) < ld:
         h = rs["unc"]
@@ -52,8 +54,8 @@ def genuine(case):
         if b in unc:
             continue
         ok = False
-        for (l, sz, mt), e, (a, z) in zip(files, es, rng):
-            if not (a <= b < z):
+        for (l, sz, mt, pad), e, (a, z) in zip(files, es, rng):
+            if pad or not (a <= b < z):
                 continue
             if e in ("n", "s"):
                 ok = True
@@ -76,7 +78,7 @@ def gen_l(r, stats, malformed):
     np_ = (total + pl - 1) // pl
     ld = 1000
     files, es = [], []
-    rng = file_ranges(pl, [(l, 0, 0) for l in lens])
+    rng = file_ranges(pl, [(l, 0, 0, False) for l in lens])
     distrust = []
     for k, l in enumerate(lens):
         mt = r.choice([500, 501, 700])
@@ -91,16 +93,21 @@ def gen_l(r, stats, malformed):
             sz, saved = l + r.randint(1, 10), r.choice([mt, M3])
         else:
             sz, saved = l, r.choice([M0, M1, "s"])
-        files.append((l, sz, mt))
+        pad = (l > 0 and k > 0 and r.random() < 0.08)
+        files.append((l, sz, mt, pad))
         es.append(str(saved))
         stats["file_" + ("missing" if sz < 0 else "intact" if sz == l else "resized")] += 1
         m = saved
-        d = (m in ("n", "s")) or (m in (M0, M1, M2)) or sz != l or (m != M3 and m != mt)
+        d = (not pad) and ((m in ("n", "s")) or (m in (M0, M1, M2)) or sz != l or (m != M3 and m != mt))
         distrust.append(d)
+        if pad:
+            stats["file_padding"] += 1
     # bad pieces: in the honest stream only where the loader must distrust, or listed as uncertain
     bad, unc = [], []
     for i in range(np_):
-        cover = [k for k, (a, z) in enumerate(rng) if a <= i < z]
+        cover = [k for k, (a, z) in enumerate(rng) if a <= i < z and not files[k][3]]
+        if not cover:
+            continue
         if r.random() < 0.2:
             if any(distrust[k] for k in cover):
                 bad.append(i)
@@ -152,24 +159,64 @@ def gen_l(r, stats, malformed):
             rs["bf"] = "S" + "ff" * ((np_ + 7) // 8)      # tail bits set in the saved string
     else:
         stats["honest"] += 1
-    return "L %d %d | %s | %s | %s" % (pl, ld, " ".join("%d,%d,%d" % f for f in files),
+    return "L %d %d | %s | %s | %s" % (pl, ld, " ".join(("%d,%d,%d" % f[:3]) + (",p" if f[3] else "") for f in files),
                                        " ".join("%s=%s" % kv for kv in rs.items()),
                                        " ".join(map(str, bad)) or "-")
 
 
 def gen_t(r, stats):
+    """two real lifetimes: history (start / download the missing pieces / time / stop / close+reopen / save), crash with
+    a loss set inside the uncertain window, per-file perturbations"""
     pl = r.choice([1025, 2048])
     nf = r.randint(1, 3)
     lens = [r.choice([pl, 2 * pl, 4 * pl, r.randint(1, 3 * pl)]) for _ in range(nf)]
     if r.random() < 0.5 and nf > 1:
         lens[1] = lens[0]
-    pert = []
-    for l in lens:
-        c = r.random()
-        pert.append("=" if c < 0.5 else "D" if c < 0.7 else ("T%d" % r.randint(0, l - 1)) if c < 0.85 else "W")
-    stats["two_lifetime"] += 1
-    return "T %d %s | %s" % (pl, " ".join(map(str, lens)), " ".join(pert))
+    np_ = (sum(lens) + pl - 1) // pl
+    c = r.random()
+    lose = []
+    pert = ["="] * nf
 
+    def some_perts(allow_w):
+        out = []
+        for l in lens:
+            x = r.random()
+            out.append("=" if x < 0.5 else "D" if x < 0.7 else ("T%d" % r.randint(0, l - 1)) if x < 0.85 else ("W" if allow_w else "D"))
+        return out
+    if c < 0.25:
+        missing, ops, pert = [], ["save"], some_perts(True)
+        stats["t_stopped_complete"] += 1
+    elif c < 0.65:
+        missing = sorted(r.sample(range(np_), r.randint(1, min(3, np_))))
+        wait = r.choice([0, 0, 5, 14, 16, 40])
+        ops = ["start", "dl"] + (["adv%d" % wait] if wait else []) + r.choice([["stop"], []]) + \
+            r.choice([[], ["close", "reopen"]]) + ["save"]
+        if wait < 15:
+            lose = sorted(r.sample(missing, r.randint(0, len(missing))))
+        if r.random() < 0.3:
+            pert = some_perts(True)
+        stats["t_download_then_save"] += 1
+    elif c < 0.85:
+        missing = sorted(r.sample(range(np_), r.randint(1, min(3, np_))))
+        ops = ["start"] + (["adv%d" % r.choice([1, 20])] if r.random() < 0.5 else []) + ["save"]
+        pert = some_perts(False)              # saved while active (~3): rewrites are the known finding, see KNOWN_FINDING_CASES
+        stats["t_active_partial"] += 1
+    else:
+        missing = sorted(r.sample(range(np_), r.randint(0, min(2, np_))))
+        ops = r.choice([["close", "save"], ["save", "start", "dl", "stop"], ["start", "stop", "save", "save"], []])
+        pert = some_perts(False) if "start" in ops else some_perts(True)
+        stats["t_other"] += 1
+    return "T %d %s | %s | %s | %s%s" % (pl, " ".join(map(str, lens)), ",".join(map(str, missing)) or "-", " ".join(ops),
+                                         " ".join(pert), (" lose=" + ",".join(map(str, lose))) if lose else "")
+
+
+# the recorded known finding (class resume-active-rewrite-not-detected): saved while active -> mtime ~3 -> a later
+# same-size rewrite of a file outside the uncertain set is not noticed
+KNOWN_FINDING_CASES = [
+    "T 2048 8192 8192 | 2 | start save | = W",
+    "T 2048 8192 8192 | 2 | start adv5 save | W =",
+    "T 1025 4100 2050 | 0 | start adv20 save | = W",
+]
 
 HAND = [
     "L 2048 1000 | 8192,8192,500 8192,8192,500 | top=m files=500,500 bf=V8 unc=none ts=none | -",
@@ -179,9 +226,11 @@ HAND = [
     "L 2048 1000 | 8192,8192,500 8192,8192,500 | top=m files=-4,-4 bf=V8 unc=00000002 ts=1000 | -",
     "L 2048 1000 | 8192,8192,500 8192,8192,500 | top=x files=-4,-4 bf=V8 unc=none ts=none | 2",
     "L 2048 1000 | 8192,8192,500 0,-1,0 8192,8192,500 | top=m files=500,-2,500 bf=V8 unc=none ts=none | -",
+    "L 2048 1000 | 7000,7000,500 1192,-1,0,p 8192,8192,500 | top=m files=500,0,500 bf=V8 unc=none ts=none | 5",
+    "L 2048 1000 | 7000,7000,501 1192,-1,0,p 8192,8192,500 | top=m files=500,n,500 bf=V8 unc=none ts=none | 1",
 ]
 
-# confirmed defects (see the C10 report); each prints a VIOLATION with its own class until triaged
+# repaired in /repo 89d42c0 (resume object that threw after a partial application): regression cases
 OPEN_DEFECT_WITNESSES = [
     # a 'files' entry that is not a map: bencode_error AFTER the bitfield was installed and the ranges cleared
     "L 2048 1000 | 8192,8192,500 8192,8192,500 | top=m files=500,x bf=V8 unc=none ts=none | 6",
@@ -192,7 +241,8 @@ OPEN_DEFECT_WITNESSES = [
 
 def gen(seed, tier):
     r = random.Random(seed * 104729 + 10)
-    keys = ["file_missing", "file_intact", "file_resized", "malformed", "honest", "two_lifetime", "corpus", "hand", "open_defect"]
+    keys = ["file_missing", "file_intact", "file_resized", "file_padding", "malformed", "honest", "corpus", "hand", "regression", "known_finding",
+            "t_stopped_complete", "t_download_then_save", "t_active_partial", "t_other"]
     stats = {k: 0 for k in keys}
     cases = []
     cdir = os.path.join(os.path.dirname(os.path.dirname(os.path.abspath(__file__))), "corpus", "C10")
@@ -204,13 +254,15 @@ def gen(seed, tier):
     for h in HAND:
         cases.append(h); stats["hand"] += 1
     for h in OPEN_DEFECT_WITNESSES:
-        cases.append(h); stats["open_defect"] += 1
+        cases.append(h); stats["regression"] += 1
+    for h in KNOWN_FINDING_CASES:
+        cases.append(h); stats["known_finding"] += 1
     n = 1500 if tier == "quick" else 15000
     for _ in range(n):
         cases.append(gen_l(r, stats, malformed=False))
     for _ in range(n // 2):
         cases.append(gen_l(r, stats, malformed=True))
-    for _ in range(60 if tier == "quick" else 600):
+    for _ in range(150 if tier == "quick" else 1500):
         cases.append(gen_t(r, stats))
     return cases, stats
 
@@ -224,7 +276,15 @@ def oracle(case, full):
     bad = []
     if case.startswith("T "):
         if f.get("sound") != "1":
-            bad.append(("resume-unsound", "after save / crash / perturbation / load / check a set piece is not valid on disk: bits=%s valid=%s" % (f.get("bits"), f.get("ssl"))))
+            sec = case.split("|")
+            pert = [x for x in sec[3].split() if not x.startswith("lose=")]
+            saved = f.get("saved", "")
+            if any(k < len(saved) and saved[k] == "A" and p == "W" for k, p in enumerate(pert)):
+                bad.append(("resume-active-rewrite-not-detected",
+                            "saved while active (mtime ~3), file rewritten with the same size afterwards: load + check keeps pieces that are not valid: bits=%s valid=%s"
+                            % (f.get("bits"), f.get("ssl"))))
+            else:
+                bad.append(("resume-unsound", "after save / crash / perturbation / load / check a set piece is not valid on disk: bits=%s valid=%s" % (f.get("bits"), f.get("ssl"))))
         return bad
     pl, ld, files, rs, badp = parse(case)
     np_ = (sum(x[0] for x in files) + pl - 1) // pl
